@@ -273,7 +273,8 @@ def fam_op(ctx):
 
 
 METHODS = [('lag', 1), ('madd', 2), ('range', 2), ('clip', 2), ('lag2', 1), ('linlin', 4), ('min', 1), ('round', 1),
-           ('wrap', 2), ('lagud', 2), ('linexp', 4)]
+           ('wrap', 2), ('lagud', 2), ('linexp', 4), ('lag3', 1), ('lag2ud', 2), ('lag3ud', 2), ('slew', 2), ('fold', 2),
+           ('exprange', 2), ('moddif', 2), ('blend', 2), ('explin', 4), ('expexp', 4)]
 CLIP_ARG = [(), (None,), ('max',)]       # trailing clip argument of the range-mapping methods: default, "do not clip", one side
 
 
@@ -291,7 +292,7 @@ def fam_method(ctx):
         return {'key': f'c03:method:{sub}', 'replay': dict(rec, sub=sub)}
     args = [mkval(s, 0.1 * (i + 1)) for i, s in enumerate(shapes)]
     what = f'ChannelList[{n}].{name}{tuple(shapes)}'
-    if name in ('linlin', 'linexp'):
+    if name in ('linlin', 'linexp', 'explin', 'expexp'):
         ck = ctx.choose('clip', len(CLIP_ARG))
         rec['clip'] = ck
         args = args + list(CLIP_ARG[ck])
